@@ -1,6 +1,114 @@
-(** C08 -- placeholder until Proofs/CprProof.v and Proofs/NLTable.v are integrated *)
-From SQ Require Import Base Cpr.
-Theorem C08_pmod_example : pmod (-7) 3 = 2%Z /\ pmod 7 3 = 1%Z.
-Proof. split; reflexivity. Qed.
-Check C08_pmod_example : pmod (-7) 3 = 2%Z /\ pmod 7 3 = 1%Z.
-Print Assumptions C08_pmod_example.
+(** C08 -- airborne position is the correct global CPR decode or is left unchanged. *)
+From SQ Require Import Base Cpr Update Tables NLTable CprProof.
+From Coq Require Import Reals QArith Qabs.
+Local Open Scope N_scope.
+
+(** the position is left exactly as it was when the pairing guard fails (a CPR field is 0, the slots hold different kinds, the frames are 10 s or more apart) or the type code is not a position type *)
+Theorem C08_unchanged_without_valid_pair : forall (obs : option (Q * Q)) (r : row) (tc form : N), pos_guard r = false \/ ~ 5 <= tc <= 18 -> update_position obs r tc form = r.
+Proof. exact update_position_unchanged. Qed.
+Check C08_unchanged_without_valid_pair : forall (obs : option (Q * Q)) (r : row) (tc form : N), pos_guard r = false \/ ~ 5 <= tc <= 18 -> update_position obs r tc form = r.
+Print Assumptions C08_unchanged_without_valid_pair.
+
+(** dichotomy: either the pair commits the CPR decode, or nothing at all changes *)
+Theorem C08_commit_or_unchanged : forall (obs : option (Q * Q)) (r : row) (tc form : N), (exists la lo : Q, pos_commits r tc form la lo /\ update_position obs r tc form = pos_commit obs r la lo) \/ (forall la lo : Q, ~ pos_commits r tc form la lo) /\ update_position obs r tc form = r.
+Proof. exact update_position_cases. Qed.
+Check C08_commit_or_unchanged : forall (obs : option (Q * Q)) (r : row) (tc form : N), (exists la lo : Q, pos_commits r tc form la lo /\ update_position obs r tc form = pos_commit obs r la lo) \/ (forall la lo : Q, ~ pos_commits r tc form la lo) /\ update_position obs r tc form = r.
+Print Assumptions C08_commit_or_unchanged.
+
+(** a changed position is in range, is the CPR decode of the two stored frames anchored on the frame just received, and carries the position time *)
+Theorem C08_committed_position : forall (obs : option (Q * Q)) (r : row) (tc form : N) (r' : row), update_position obs r tc form = r' -> (lat r', lon r') <> (lat r, lon r) -> (-90 <= lat r')%Q /\ (lat r' <= 90)%Q /\ (-180 <= lon r')%Q /\ (lon r' <= 180)%Q /\ position_t r' = Some (timestamp r) /\ pos_guard r = true /\ (exists coeff : Z, (5 <= tc <= 8 /\ coeff = 4%Z \/ 9 <= tc <= 18 /\ coeff = 1%Z) /\ cpr_location (cpr_lat0 r) (cpr_lat1 r) (cpr_lon0 r) (cpr_lon1 r) form coeff = Some (lat r', lon r')).
+Proof. exact update_position_range. Qed.
+Check C08_committed_position : forall (obs : option (Q * Q)) (r : row) (tc form : N) (r' : row), update_position obs r tc form = r' -> (lat r', lon r') <> (lat r, lon r) -> (-90 <= lat r')%Q /\ (lat r' <= 90)%Q /\ (-180 <= lon r')%Q /\ (lon r' <= 180)%Q /\ position_t r' = Some (timestamp r) /\ pos_guard r = true /\ (exists coeff : Z, (5 <= tc <= 8 /\ coeff = 4%Z \/ 9 <= tc <= 18 /\ coeff = 1%Z) /\ cpr_location (cpr_lat0 r) (cpr_lat1 r) (cpr_lon0 r) (cpr_lon1 r) form coeff = Some (lat r', lon r')).
+Print Assumptions C08_committed_position.
+
+(** frames 10 whole seconds or more apart never produce a position *)
+Theorem C08_time_window : forall (obs : option (Q * Q)) (r : row) (tc form : N), (Z.abs (num_seconds (cpr_t0 r) (cpr_t1 r)) >= 10)%Z -> update_position obs r tc form = r.
+Proof. exact update_position_time_window. Qed.
+Check C08_time_window : forall (obs : option (Q * Q)) (r : row) (tc form : N), (Z.abs (num_seconds (cpr_t0 r) (cpr_t1 r)) >= 10)%Z -> update_position obs r tc form = r.
+Print Assumptions C08_time_window.
+
+(** a surface frame is never paired with an airborne one *)
+Theorem C08_mixed_kinds : forall (obs : option (Q * Q)) (r : row) (tc form : N), cpr_s0 r <> cpr_s1 r -> update_position obs r tc form = r.
+Proof. exact update_position_mixed. Qed.
+Check C08_mixed_kinds : forall (obs : option (Q * Q)) (r : row) (tc form : N), cpr_s0 r <> cpr_s1 r -> update_position obs r tc form = r.
+Print Assumptions C08_mixed_kinds.
+
+(** a pair whose recovered latitudes lie in different NL zones changes nothing *)
+Theorem C08_zone_straddling : forall (obs : option (Q * Q)) (r : row) (tc form : N), nl (cpr_rlat0 (cpr_lat0 r) (cpr_lat1 r)) <> nl (cpr_rlat1 (cpr_lat0 r) (cpr_lat1 r)) -> update_position obs r tc form = r.
+Proof. exact update_position_straddle. Qed.
+Check C08_zone_straddling : forall (obs : option (Q * Q)) (r : row) (tc form : N), nl (cpr_rlat0 (cpr_lat0 r) (cpr_lat1 r)) <> nl (cpr_rlat1 (cpr_lat0 r) (cpr_lat1 r)) -> update_position obs r tc form = r.
+Print Assumptions C08_zone_straddling.
+
+(** a row created from a single message shows no position *)
+Theorem C08_single_frame_squitter_path : forall (obs : option (Q * Q)) (now : Z) (m : list N) (df a : N) (relaxed : bool) (r' : row), row_from_message obs now m df a relaxed = Ok r' -> lat r' = 0%Q /\ lon r' = 0%Q /\ Row.dist r' = None /\ position_t r' = None.
+Proof. exact row_from_message_no_position. Qed.
+Check C08_single_frame_squitter_path : forall (obs : option (Q * Q)) (now : Z) (m : list N) (df a : N) (relaxed : bool) (r' : row), row_from_message obs now m df a relaxed = Ok r' -> lat r' = 0%Q /\ lon r' = 0%Q /\ Row.dist r' = None /\ position_t r' = None.
+Print Assumptions C08_single_frame_squitter_path.
+
+(** likewise on the downlink path *)
+Theorem C08_single_frame_downlink_path : forall (obs : option (Q * Q)) (now : Z) (d : downlink) (a : N), let r' := row_from_downlink obs now d a in lat r' = 0%Q /\ lon r' = 0%Q /\ Row.dist r' = None /\ position_t r' = None.
+Proof. exact row_from_downlink_no_position. Qed.
+Check C08_single_frame_downlink_path : forall (obs : option (Q * Q)) (now : Z) (d : downlink) (a : N), let r' := row_from_downlink obs now d a in lat r' = 0%Q /\ lon r' = 0%Q /\ Row.dist r' = None /\ position_t r' = None.
+Print Assumptions C08_single_frame_downlink_path.
+
+(** without an observer the distance is never touched *)
+Theorem C08_distance_without_observer : forall (r : row) (tc form : N), Row.dist (update_position None r tc form) = Row.dist r.
+Proof. exact update_position_dist_none. Qed.
+Check C08_distance_without_observer : forall (r : row) (tc form : N), Row.dist (update_position None r tc form) = Row.dist r.
+Print Assumptions C08_distance_without_observer.
+
+(** with an observer a committed position carries the distance to exactly that observer *)
+Theorem C08_distance_with_observer : forall (ola olo : Q) (r : row) (tc form : N) (la lo : Q), pos_commits r tc form la lo -> let r' := update_position (Some (ola, olo)) r tc form in Row.dist r' = Some (lat r', lon r', ola, olo).
+Proof. exact update_position_dist_some. Qed.
+Check C08_distance_with_observer : forall (ola olo : Q) (r : row) (tc form : N) (la lo : Q), pos_commits r tc form la lo -> let r' := update_position (Some (ola, olo)) r tc form in Row.dist r' = Some (lat r', lon r', ola, olo).
+Print Assumptions C08_distance_with_observer.
+
+(** CPR latitude decoding is correct in exact arithmetic: for every latitude in (-89, 89) the latitude recovered from the standard even/odd encodings is within 6/2^18 degrees (2.5 m) of the encoded one *)
+Theorem C08_latitude_even_correct : forall (lat : Q) (yz0 yz1 : N), (-89 < lat)%Q -> (lat < 89)%Q -> Z.of_N yz0 = cpr_enc 6 lat -> Z.of_N yz1 = cpr_enc (360 # 59) lat -> (Qabs (cpr_rlat0 yz0 yz1 - lat) <= 6 * (1 # 262144))%Q.
+Proof. exact cpr_rlat0_correct. Qed.
+Check C08_latitude_even_correct : forall (lat : Q) (yz0 yz1 : N), (-89 < lat)%Q -> (lat < 89)%Q -> Z.of_N yz0 = cpr_enc 6 lat -> Z.of_N yz1 = cpr_enc (360 # 59) lat -> (Qabs (cpr_rlat0 yz0 yz1 - lat) <= 6 * (1 # 262144))%Q.
+Print Assumptions C08_latitude_even_correct.
+
+(** the same for the odd frame (within (360/59)/2^18 degrees) *)
+Theorem C08_latitude_odd_correct : forall (lat : Q) (yz0 yz1 : N), (-89 < lat)%Q -> (lat < 89)%Q -> Z.of_N yz0 = cpr_enc 6 lat -> Z.of_N yz1 = cpr_enc (360 # 59) lat -> (Qabs (cpr_rlat1 yz0 yz1 - lat) <= (360 # 59) * (1 # 262144))%Q.
+Proof. exact cpr_rlat1_correct. Qed.
+Check C08_latitude_odd_correct : forall (lat : Q) (yz0 yz1 : N), (-89 < lat)%Q -> (lat < 89)%Q -> Z.of_N yz0 = cpr_enc 6 lat -> Z.of_N yz1 = cpr_enc (360 # 59) lat -> (Qabs (cpr_rlat1 yz0 yz1 - lat) <= (360 # 59) * (1 # 262144))%Q.
+Print Assumptions C08_latitude_odd_correct.
+
+(** hence the latitude shown after a commit is within that bound of the encoded latitude *)
+Theorem C08_latitude_at_row_level : forall (obs : option (Q * Q)) (r : row) (tc form : N) (truelat la lo : Q), (-89 < truelat)%Q -> (truelat < 89)%Q -> Z.of_N (cpr_lat0 r) = cpr_enc 6 truelat -> Z.of_N (cpr_lat1 r) = cpr_enc (360 # 59) truelat -> pos_commits r tc form la lo -> (Qabs (lat (update_position obs r tc form) - truelat) <= (if form =? 1 then 360 # 59 else 6) * (1 # 262144))%Q.
+Proof. exact update_position_lat_correct. Qed.
+Check C08_latitude_at_row_level : forall (obs : option (Q * Q)) (r : row) (tc form : N) (truelat la lo : Q), (-89 < truelat)%Q -> (truelat < 89)%Q -> Z.of_N (cpr_lat0 r) = cpr_enc 6 truelat -> Z.of_N (cpr_lat1 r) = cpr_enc (360 # 59) truelat -> pos_commits r tc form la lo -> (Qabs (lat (update_position obs r tc form) - truelat) <= (if form =? 1 then 360 # 59 else 6) * (1 # 262144))%Q.
+Print Assumptions C08_latitude_at_row_level.
+
+(** every boundary of the NL table regenerated from position.rs is the DO-260B transition latitude (closed form with acos) correctly rounded to 8 decimals *)
+Theorem C08_nl_table_is_do260b : forall (b : Q) (k : Z), In (b, k) nl_table -> (Rabs (nl_lat k - Q2R b) < nl_half)%R.
+Proof. exact nl_table_lat_half. Qed.
+Check C08_nl_table_is_do260b : forall (b : Q) (k : Z), In (b, k) nl_table -> (Rabs (nl_lat k - Q2R b) < nl_half)%R.
+Print Assumptions C08_nl_table_is_do260b.
+
+(** the table lists NL = 59 down to 2 *)
+Theorem C08_nl_table_shape : map snd nl_table = map Z.of_nat (rev (seq 2 58)).
+Proof. exact nl_table_values. Qed.
+Check C08_nl_table_shape : map snd nl_table = map Z.of_nat (rev (seq 2 58)).
+Print Assumptions C08_nl_table_shape.
+
+(** with strictly increasing boundaries *)
+Theorem C08_nl_table_increasing : Sorted.StronglySorted Qlt (map fst nl_table).
+Proof. exact nl_table_increasing. Qed.
+Check C08_nl_table_increasing : Sorted.StronglySorted Qlt (map fst nl_table).
+Print Assumptions C08_nl_table_increasing.
+
+(** and the lookup returns NL = v exactly on [b_(v+1), b_v) *)
+Theorem C08_nl_lookup_band : forall (lat b : Q) (v : Z) (b' : Q), In (b, v) nl_table -> In (b', (v + 1)%Z) nl_table -> (b' <= Qabs lat)%Q -> (Qabs lat < b)%Q -> nl lat = v.
+Proof. exact nl_band. Qed.
+Check C08_nl_lookup_band : forall (lat b : Q) (v : Z) (b' : Q), In (b, v) nl_table -> In (b', (v + 1)%Z) nl_table -> (b' <= Qabs lat)%Q -> (Qabs lat < b)%Q -> nl lat = v.
+Print Assumptions C08_nl_lookup_band.
+
+(** non-vacuity: the encoder hypotheses of the latitude theorem are met by a real position (52.2572 N encodes to 93000 / 73974... as in the textbook frame) *)
+Theorem C08_encoder_example : cpr_enc 6 52.2572 = 93000%Z /\ cpr_enc (360 # 59) 52.2572 = 73974%Z /\ cpr_rlat0 93000 73974 == 428091 # 8192.
+Proof. exact cpr_enc_example. Qed.
+Check C08_encoder_example : cpr_enc 6 52.2572 = 93000%Z /\ cpr_enc (360 # 59) 52.2572 = 73974%Z /\ cpr_rlat0 93000 73974 == 428091 # 8192.
+Print Assumptions C08_encoder_example.
+
+
